@@ -23,3 +23,26 @@ Theorem C06_desktopsize_updates_geometry : forall s b x y w h,
 Proof. exact desktopsize_geometry. Qed.
 Print Assumptions C06_desktopsize_updates_geometry.
 
+
+(** For every run of the client's expect loop, on any bytes from any state (all encodings, all
+    chunkings by C01): an image is saved only immediately after a commit - hence only when an update has
+    been applied in full, never between beginUpdate and commitUpdate and never on a Bell / cut text /
+    colour map -, at most one image per waiting capture, none if no capture waits, and the waiter is
+    cleared exactly when it was served. *)
+From VD Require Import Proofs.SaveP.
+
+Theorem C06_save_only_at_commit : forall s p buf es r n,
+  Drain s p buf es r n ->
+  saves_at_commits false es = true /\
+  (count_save es <= (if waiter s then 1 else 0))%nat /\
+  match r with
+  | Idle s' _ _ => waiter s' = (waiter s && Nat.eqb (count_save es) 0)
+  | Crashed => True
+  end.
+Proof. exact drain_saves. Qed.
+Print Assumptions C06_save_only_at_commit.
+
+(** every single handler: a save, if any, is the last event and follows a commit *)
+Theorem C06_handler_saves : forall s p b, sres (waiter s) (step s p b).
+Proof. exact step_saves. Qed.
+Print Assumptions C06_handler_saves.
